@@ -107,6 +107,7 @@ func verifPick(n int) int {
 
 func verifTxId(j int) string { return string(rune('a' + j)) }
 
+//verif:maxpaths 120000
 // VerifC18Follow: a state piped with Add on activation / Remove on deactivation: after the source
 // stops toggling and every forked delivery has run (in any order), the target follows the source.
 func VerifC18Follow() {
